@@ -1,16 +1,213 @@
 package main
 
 import (
+	"fmt"
+	"strings"
+
 	"verifharness/lib"
 )
 
-// caseSink collects the worlds that go to the model (cases_*.v).
+// caseSink collects the worlds that go to the model (cases_*.v): the inputs (definitions by
+// route, construction requests, asked names) and everything the implementation was observed to do
+// with them, as Gallina terms of the types of coq/Corr/CorrC17.v.
 type caseSink struct {
-	cfg *lib.Config
+	cfg   *lib.Config
+	files []*lib.CasesFile
+	n     int
 }
 
-func newCaseSink(cfg *lib.Config) *caseSink { return &caseSink{cfg: cfg} }
+func newCaseSink(cfg *lib.Config) *caseSink {
+	k := 4
+	if cfg.Thorough() {
+		k = 8
+	}
+	if cfg.Replay != "" {
+		k = 1
+	}
+	s := &caseSink{cfg: cfg}
+	for i := 0; i < k; i++ {
+		s.files = append(s.files, &lib.CasesFile{
+			Imports: []string{"Model.Base", "Model.Obj", "Corr.CorrC17"},
+			Typ:     "world",
+			Obligations: map[string]string{
+				"define_model": "define_mismatches cases",
+				"object_model": "object_mismatches cases",
+				"equals_model": "equals_mismatches cases",
+			}})
+	}
+	return s
+}
 
-func (s *caseSink) add(w *World, wo *WorldObs) {}
+// strings are interned: every distinct string is defined once in the prelude of the cases file (the
+// byte-list literals dominate the parsing time of coqc otherwise)
+var strTab = map[string]string{}
+var strOrder []string
 
-func (s *caseSink) flush(res *lib.Result) {}
+func gS(s string) string {
+	if s == "" {
+		return "(@nil N)"
+	}
+	if n, ok := strTab[s]; ok {
+		return n
+	}
+	n := fmt.Sprintf("zs%d", len(strOrder))
+	strTab[s] = n
+	strOrder = append(strOrder, s)
+	return n
+}
+
+func strPrelude() string {
+	var b strings.Builder
+	for i, s := range strOrder {
+		fmt.Fprintf(&b, "Definition zs%d : str := %s.\n", i, lib.GStr(s))
+	}
+	return b.String()
+}
+
+func gKind(k string) string {
+	switch k {
+	case "":
+		return "KNormal"
+	case "constant":
+		return "KConstant"
+	case "derived":
+		return "KDerived"
+	case "given_or_derived":
+		return "KGivenOrDerived"
+	case "reference":
+		return "KReference"
+	}
+	return "KNormal (* unknown kind " + k + " *)"
+}
+
+func gErr(code string) string {
+	if code == "" {
+		return "EOtherPanic"
+	}
+	return code
+}
+
+func gDefObs(o *DefObs) string {
+	if !o.Accepted {
+		return "(DRej " + gErr(o.Err) + ")"
+	}
+	as := make([]string, len(o.Info))
+	for i, a := range o.Info {
+		v := lib.GOpt(false, "", "value")
+		if a.HasValue {
+			v = lib.GOpt(true, a.Value.Gallina(), "value")
+		}
+		as[i] = "(" + gS(a.Name) + ", " + gKind(a.Kind) + ", " + a.Ty.Gallina() + ", " + v + ")"
+	}
+	return "(DAcc " + lib.GList(as, "str * kind * ty * option value") + " " + lib.GNat(o.Req) + " " + gStrs(o.Eq) + ")"
+}
+
+func gGetObs(g *GetObs) string {
+	var get string
+	switch {
+	case g.Err != "":
+		get = "(Err " + g.Err + ")"
+	case g.Found:
+		get = "(Ok (Some " + g.V.Gallina() + "))"
+	default:
+		get = "(Ok (@None value))"
+	}
+	var ag string
+	switch g.AStatus {
+	case "none":
+		ag = "ANone"
+	case "val":
+		ag = "(AVal " + g.AV.Gallina() + ")"
+	default:
+		ag = "(AErr " + g.AStatus + ")"
+	}
+	return "(mkGet " + gS(g.Name) + " " + get + " " + ag + ")"
+}
+
+func gObjObs(o *ObjObs) string {
+	if o.Err != "" {
+		return "(ORej " + o.Err + ")"
+	}
+	gs := make([]string, len(o.Gets))
+	for i := range o.Gets {
+		gs[i] = gGetObs(&o.Gets[i])
+	}
+	ih := "(Ok " + gKVs(o.InitHash) + ")"
+	if o.IHErr != "" {
+		ih = "(Err " + o.IHErr + ")"
+	}
+	bs := make([]string, len(o.Insts))
+	for i, b := range o.Insts {
+		bs[i] = lib.GBool(b)
+	}
+	return "(OOk " + lib.GList(gs, "getobs") + " " + ih + " " + lib.GList(bs, "bool") + ")"
+}
+
+func gWorld(w *World, wo *WorldObs) string {
+	ds := make([]string, len(w.Defs))
+	for i, d := range w.Defs {
+		route := "RText"
+		if d.Route == "hash" {
+			route = "RHash"
+		}
+		ds[i] = "(mkDC " + route + " " + gS(d.Name) + " " + d.Raw.Gallina() + " " + gDefObs(&wo.Defs[i]) + ")"
+	}
+	ns := make([]string, len(w.News))
+	for i, r := range w.News {
+		var args string
+		if r.Named {
+			args = "[" + vHash(r.Hash...).Gallina() + "]"
+		} else {
+			as := make([]string, len(r.Args))
+			for k, a := range r.Args {
+				as[k] = a.Gallina()
+			}
+			args = lib.GList(as, "value")
+		}
+		ns[i] = "(mkNC " + lib.GNat(r.T) + " " + args + " " + gObjObs(&wo.Objs[i]) + ")"
+	}
+	rows := make([]string, len(wo.Eq))
+	for i, row := range wo.Eq {
+		cs := make([]string, len(row))
+		for j, c := range row {
+			cs[j] = [...]string{"EqNA", "EqNo", "EqYes", "EqRaised"}[c+1]
+		}
+		rows[i] = lib.GList(cs, "eqc")
+	}
+	return "(mkWorld\n   " + lib.GList(ds, "defcase") + "\n   " + gStrs(w.Names) + "\n   [" + strings.Join(ns, ";\n    ") + "]\n   " +
+		lib.GList(rows, "list eqc") + ")"
+}
+
+// add emits the world after it ran (the derived requests are part of it).
+func (s *caseSink) add(w *World, wo *WorldObs) {
+	for i := range wo.Objs {
+		if wo.Objs[i].Outside != "" {
+			// a value outside the value universe of the model was observed: nothing to compare with
+			return
+		}
+	}
+	// a request hash with a repeated key is not a pcore Hash value (such requests are only derived from
+	// the layout of a definition with a duplicate in its serialization list: open finding)
+	for i := range w.News {
+		seen := map[string]bool{}
+		for _, kv := range w.News[i].Hash {
+			if seen[kv.K] {
+				return
+			}
+			seen[kv.K] = true
+		}
+	}
+	term := gWorld(w, wo)
+	s.files[s.n%len(s.files)].Add(term, replayInput(w))
+	s.n++
+}
+
+func (s *caseSink) flush(res *lib.Result) {
+	for i, f := range s.files {
+		if len(f.Cases) == 0 && i > 0 {
+			continue
+		}
+		f.Prelude = strPrelude()
+		res.CorrFiles = append(res.CorrFiles, f.WriteTo(s.cfg.Out, fmt.Sprintf("cases_%d", i)))
+	}
+}
